@@ -49,16 +49,26 @@ import (
 // c15NewCheck: one more instance of the check for the configuration of the case, built the way
 // the server builds it: configuration text -> parser -> config.Map -> Init.
 func c15NewCheck(block config.Node) *Check {
+	c, err := c15TryNewCheck(block)
+	if err != nil {
+		panic(fmt.Sprintf("Init: %v", err))
+	}
+	return c
+}
+
+// c15TryNewCheck: the same; an error = the configuration is refused.
+func c15TryNewCheck(block config.Node) (*Check, error) {
 	mod, err := New(modName, "c15", nil, nil)
 	if err != nil {
 		panic(err)
 	}
 	c := mod.(*Check)
 	if err := c.Init(config.NewMap(map[string]interface{}{}, block)); err != nil {
-		panic(fmt.Sprintf("Init: %v", err))
+		c15CloseTables(c)
+		return nil, err
 	}
 	c.log = log.Logger{Out: log.NopOutput{}}
-	return c
+	return c, nil
 }
 
 // c15FilesClosed counts the file tables whose reloader was stopped: their reload hooks stay
@@ -98,6 +108,16 @@ func c15Stage(res module.CheckResult) vc15.StageObs {
 	if !errors.As(res.Reason, &se) {
 		o.Reason, o.Codes = "other("+res.Reason.Error()+")", "0:0.0.0"
 		return o
+	}
+	// a reply configured with the action (`reject 553 5.7.1 "text"`) is wrapped around the refusal of
+	// the check: the outer error is what the client is told, the inner one says why
+	if inner, isSMTP := se.Err.(*exterrors.SMTPError); isSMTP && inner != nil {
+		if _, known := c15Messages[inner.Message]; known {
+			reply := fmt.Sprintf(">%d:%d.%d.%d:%s", se.Code, se.EnhancedCode[0], se.EnhancedCode[1], se.EnhancedCode[2], vh.HexRunes(se.Message))
+			o.Reason = c15Messages[inner.Message]
+			o.Codes = fmt.Sprintf("%d:%d.%d.%d", inner.Code, inner.EnhancedCode[0], inner.EnhancedCode[1], inner.EnhancedCode[2]) + reply
+			return o
+		}
 	}
 	name, ok := c15Messages[se.Message]
 	if !ok {
@@ -334,12 +354,27 @@ func c15Do(out *vh.Out, cs *vc15.Case) {
 		defer cs.ReleaseMem()
 		out.Stat("cfg.built-from." + how)
 		var runs []vc15.Run
+		refused := 0
 		for i, n := 0, c15Instances(); i < n; i++ {
-			c := c15NewCheck(block)
+			c, err := c15TryNewCheck(block)
+			if err != nil {
+				refused++
+				continue
+			}
 			func() {
 				defer c15CloseTables(c)
 				runs = append(runs, c15Exec(c, cs, hdr))
 			}()
+		}
+		out.Stat("cfg.actions-documented." + vc15.B01(cs.ActionsDocumented()) + ".refused." + vc15.B01(refused > 0))
+		if refused > 0 {
+			// the configuration is refused (an action directive that is no action): no check, no decision
+			op := vc15.OpLine(cs, &vc15.Run{})
+			if len(runs) > 0 {
+				out.Violation("C15/instances-of-one-configuration-disagree", op, fmt.Sprintf("%d of %d initialisations refused the configuration", refused, refused+len(runs)))
+			}
+			out.Corr(op, "config-refused")
+			return
 		}
 		c15Judge(out, cs, cs, runs, "")
 		r := &runs[0]
